@@ -9,7 +9,11 @@ sentinel loop and the join loop (exceptional edges only where a resolved
 raise/assert witness exists in the callee chain); WRK-1 - every path of a
 worker iteration executes task_done() exactly once and then notifies under the
 condition variable, and no exception can leave the iteration (taint model of
-the task result); WAIT - wait() and the state inspection share one `with
+the task result); WRK-FINAL - on every path of a worker iteration the
+status published for the task is a constant among DONE / FAILED / SKIPPED or
+a value that a membership test against such a set has accepted (a status that
+is merely a valid TaskStatus member - PENDING, WAITING - would keep the
+dependents waiting for ever: F26); WAIT - wait() and the state inspection share one `with
 cond_var` block, every notify is under it; SENT - as many sentinels as
 workers, queue.join() first, worker leaves on the sentinel and acknowledges
 it (task_done) because the queue outlives the call; LOCK - the
